@@ -33,6 +33,34 @@ class Infra(Exception):
     """Infrastructure failure: never a violation (exit 2)."""
 
 
+class Crash(Infra):
+    """The driver process was killed by a panic / fatal error raised inside the repository's own code
+    (innermost module frame of the crashing goroutine is a mosdns function).  The crash has been recorded
+    as a violation on the context; main() turns it into exit 1."""
+
+
+def repo_panic(stderr):
+    """(message, function) if the driver died of a Go panic / fatal error whose crashing goroutine's innermost
+    non-runtime, non-stdlib frame is a function of the repository; None otherwise (harness frame first, no panic)"""
+    m = re.search(r"^(panic: .*|fatal error: .*)$", stderr or "", re.M)
+    if not m:
+        return None
+    tail = stderr[m.start():]
+    g = re.search(r"^goroutine \d+ \[running[^\]]*\]:\n((?:.+\n?)+)", tail, re.M)
+    if not g:
+        return None
+    for line in g.group(1).splitlines():
+        if line.startswith(("\t", " ")) or line.startswith("created by"):
+            continue
+        fn = line.strip()
+        if fn.startswith("github.com/IrineSistiana/mosdns/v5/"):
+            fn = re.sub(r"\(0x[0-9a-f?, {}x.]*\)$", "", fn.split("(0x")[0] if "(0x" in fn else fn)
+            return m.group(1)[:200], fn[len("github.com/IrineSistiana/mosdns/v5/"):]
+        if fn.startswith("main.") or "/verif/" in fn or fn.startswith("verif"):
+            return None                     # the harness itself is on top: an infrastructure problem
+    return None
+
+
 def log(*a):
     print("[check]", *a, flush=True)
 
@@ -491,6 +519,14 @@ def run_driver(ctx, binary, args=(), stdin_obj=None, timeout=900, env_extra=None
     except subprocess.TimeoutExpired:
         raise Infra("driver %s timed out after %ds" % (os.path.basename(binary), timeout))
     if p.returncode not in ok_codes:
+        rp = repo_panic(p.stderr)
+        if rp is not None:
+            msg, fn = rp
+            job = stdin_obj if inp is not None and len(inp) < 3000000 else None
+            ctx.violation("process-crash:%s" % fn,
+                          "the process running the real code was killed by '%s' raised in %s (repository code, not the harness)" % (msg, fn),
+                          {"crash": p.stderr[-6000:], "driver": os.path.basename(binary).replace("bin-", "", 1), "args": list(args), "job": job})
+            raise Crash("driver %s crashed inside repository code: %s in %s" % (os.path.basename(binary), msg, fn))
         raise Infra("driver %s exited %d:\n%s\n%s" % (os.path.basename(binary), p.returncode,
                                                       p.stdout[-2000:], p.stderr[-4000:]))
     recs = []
@@ -581,8 +617,21 @@ def main(argv):
     sys.path.insert(0, os.path.join(VERIF, "checks"))
     ctx = Ctx(pid, tier, seed, replay)
     try:
+        if replay:
+            try:
+                _r = json.load(open(replay))
+            except Exception:
+                _r = {}
+            if str(_r.get("signature", "")).startswith("process-crash:") and isinstance(_r.get("replay"), dict) and _r["replay"].get("job") is not None:
+                # re-run the recorded driver job on the current tree: the crash either happens again (violation) or not
+                rp = _r["replay"]
+                run_driver(ctx, go_build(ctx, rp["driver"]), args=rp.get("args", ()), stdin_obj=rp["job"], timeout=1500)
+                return ctx.finish()
         mod = importlib.import_module(pid)
         mod.run(ctx)
+        return ctx.finish()
+    except Crash as e:
+        log(str(e))
         return ctx.finish()
     except Infra as e:
         print("[check] INFRASTRUCTURE ERROR (not a verdict): %s" % e, flush=True)
